@@ -377,6 +377,21 @@ fn one_world(ctx: &mut Ctx, rng: &mut Rng) {
         match drive(&w, &[&in_a, &in_b, &in_a], &s, &[None, None, None]) {
             Ok((outs, logs, _)) => {
                 ctx.hit("interleave:three-evaluations");
+                // and four overlapping evaluations (two per input), round-robin after a random prefix
+                if pa + pb <= 24 {
+                    let mut s4: Vec<usize> = (0..4).flat_map(|i| std::iter::repeat(i).take(if i % 2 == 0 { pa } else { pb })).collect();
+                    rng.shuffle(&mut s4);
+                    if let Ok((o4, l4, _)) = drive(&w, &[&in_a, &in_b, &in_a, &in_b], &s4, &[None, None, None, None]) {
+                        ctx.count();
+                        ctx.hit("interleave:four-evaluations");
+                        for i in 0..4 {
+                            let (wo, wl) = if i % 2 == 0 { (&ba.outcomes, &ba.log) } else { (&bb.outcomes, &bb.log) };
+                            if o4[i].as_ref() != Some(wo) || &l4[i] != wl {
+                                return violation(ctx, "outcome-depends-on-interleaving", "four interleaved evaluations".into(), &rules, json!({"schedule": s4}));
+                            }
+                        }
+                    }
+                }
                 if outs[0].clone().unwrap() != ba.outcomes || outs[2].clone().unwrap() != ba.outcomes || outs[1].clone().unwrap() != bb.outcomes || logs[0] != ba.log || logs[2] != ba.log {
                     return violation(ctx, "outcome-depends-on-interleaving", "three interleaved evaluations".into(), &rules, json!({"schedule": s}));
                 }
